@@ -59,6 +59,15 @@ def gen_cases(tier, seed):
                       "codec": ["UNCOMPRESSED", "SNAPPY"][int(rng.integers(0, 2))],
                       # top-level keys the known-finding predicates and features look at
                       "kind": "MULTI", "page_version": 1})
+    # two files opened as one dataset, the nested columns at other chunk positions in the second
+    for i in range(40 if tier == "quick" else 600):
+        subs = []
+        for j in range(2):
+            subs.append({"seed": int(rng.integers(0, 2 ** 31)), "kind": ["LIST", "MAP"][j], "prim": ["i64", "utf8", "i32"][int(rng.integers(0, 3))], "key_prim": "utf8",
+                         "top_optional": bool(rng.integers(0, 2)), "elem_optional": bool(rng.integers(0, 2)), "max_len": 3, "p_null_row": 0.2, "p_null_elem": 0.3, "p_empty": 0.2,
+                         "page_values": [int(x) for x in rng.integers(3, 25, 3)] if i % 2 else [10 ** 9], "page_version": 1, "use_dict": bool(rng.integers(0, 2)), "_": 0, "long_rows": False})
+        cases.append({"id": "NX/%d/%d" % (seed, i), "two_files": True, "cols": subs, "row_groups": [int(rng.integers(2, 20))], "codec": ["UNCOMPRESSED", "SNAPPY"][i % 2],
+                      "second_layout": ["missing", "last"][i % 2], "reverse": bool(i % 4 >= 2), "kind": "MULTI", "page_version": 1})
     return cases
 
 
@@ -135,12 +144,68 @@ def canon_obj(x, prim):
     return c
 
 
+def run_two_files(case):
+    """Two files of another writer opened as one dataset; the second stores the nested columns at other chunk positions (an earlier flat
+    column is absent from it, or comes last): every LIST / MAP row of both files must be assembled as stored."""
+    import os
+    import fastparquet
+    from vf.props import common as C
+    from vf.ref import writer as W
+    counters = {}
+    res = {"features": [], "nontrivial": False, "failures": [], "counters": counters}
+    root = C.fresh_path("")
+    os.makedirs(root)
+    try:
+        subs = [dict(c, row_groups=case["row_groups"], codec=case["codec"]) for c in case["cols"]]
+        names = ["n%d" % j for j in range(len(subs))]
+        flat = lambda n_, off: {"name": "s", "ptype": "INT64", "converted": None, "rows": [off + i for i in range(n_)], "optional": False, "page_rows": [10 ** 9], "use_dict": False}
+        total = sum(case["row_groups"])
+        files, rows_all = [], [[] for _ in subs]
+        for fi in range(2):
+            ncols = []
+            for j, (sub, name) in enumerate(zip(subs, names)):
+                spec1, rows1 = make(dict(sub, seed=sub["seed"] + 7919 * fi))
+                spec1["columns"][0]["name"] = name
+                ncols.append(spec1["columns"][0])
+                rows_all[j] += rows1
+            layout = ["first", case["second_layout"]][fi]
+            cols = {"first": [flat(total, 0)] + ncols, "missing": ncols, "last": ncols + [flat(total, 1000)]}[layout]
+            data, _ = W.build_file({"codec": case["codec"], "columns": cols, "row_groups": list(case["row_groups"])})
+            p = os.path.join(root, "f%d.parquet" % fi)
+            with open(p, "wb") as f:
+                f.write(data)
+            files.append(p)
+        order = files if not case.get("reverse") else files[::-1]
+        if case.get("reverse"):
+            rows_all = [r[total:] + r[:total] for r in rows_all]
+        ctx = {"nested": "MULTI", "page_version": 1, "two_files": True, "second_layout": case["second_layout"], "reverse": bool(case.get("reverse")), "codec": case["codec"],
+               "row_groups": case["row_groups"], "use_dict": None, "prim": None, "top_optional": None, "elem_optional": None, "single_page": None, "long_rows": False}
+        try:
+            got = fastparquet.ParquetFile(order).to_pandas(columns=names)
+        except Exception as e:
+            res["failures"].append({"kind": "read_raised", **ctx, **C.exc_shape(e)})
+        else:
+            for sub, name, rows in zip(subs, names, rows_all):
+                sctx = dict(ctx, nested=sub["kind"], prim=sub["prim"], top_optional=sub["top_optional"], elem_optional=sub["elem_optional"],
+                            use_dict=sub["use_dict"], single_page=sub["page_values"] == [10 ** 9], column=name)
+                _compare_column(sub, name, rows, got, sctx, res, counters)
+            counters["two_file_datasets_with_shifted_chunk_positions"] = 1
+        res["outcome"] = "ok"
+        res["nontrivial"] = True
+        res["features"] = ["two_files", case["second_layout"], bool(case.get("reverse")), len(subs)]
+        return res
+    finally:
+        C.cleanup(root)
+
+
 def run_case(case):
     import fastparquet
     from vf.props import common as C
     from vf.gen import recipes as RC
     from vf.ref import writer as W
     from vf.ref import reader as R
+    if case.get("two_files"):
+        return run_two_files(case)
     counters = {}
     res = {"features": [], "nontrivial": False, "failures": [], "counters": counters}
     path = C.fresh_path(".parq")
@@ -308,4 +373,4 @@ def _feat(case):
 
 
 def required(tier):
-    return {"rows_compared": 3000, "assemble_calls_checked": 500, "multi_nested_column_files": 20, "nested_dictionary_fallback_files": 40}
+    return {"rows_compared": 3000, "assemble_calls_checked": 500, "multi_nested_column_files": 20, "nested_dictionary_fallback_files": 40, "two_file_datasets_with_shifted_chunk_positions": 20}
